@@ -58,7 +58,9 @@ MutinyStream<'a, ItemType, ChannelConsumerType, DerivedItemType> {
         match event {
             Some(_) => Poll::Ready(event),
             None => {
+                #[cfg(feature = "verif")] crate::verif::yield_point("ms.poll.after_consume");
                 if self.events_source.keep_stream_running(self.stream_id) {
+                    #[cfg(feature = "verif")] crate::verif::yield_point("ms.poll.before_register");
                     self.events_source.register_stream_waker(self.stream_id, cx.waker());
                     Poll::Pending
                 } else {
